@@ -28,6 +28,10 @@ K15 = "metaflush+reopen/double-needs-more-than-15-digits"
 KSUB = "metaflush+reopen/subnormal-double-literal-rejected"
 KNZ = "metaflush+reopen/negative-zero-literal"
 KHID = "dirfile_standards/hidden-entry-skips-type-version"
+KINC = "metaflush+reopen/include-namespace-and-prefix"
+KNSV = "dirfile_standards/fragment-namespace-ignored"
+KREPRZ = "metaflush+reopen/dot-z-code-in-affixed-fragment"
+KINH = "metaflush+reopen/inherited-fragment-attributes-not-persisted"
 
 
 def hx(b):
@@ -61,9 +65,10 @@ def h16(b):
 # ---------------------------------------------------------------- generator
 
 class Gen:
-    def __init__(self, rng, P):
+    def __init__(self, rng, P, facts=None):
         self.r = rng
         self.P = P
+        self.facts = facts or {}
 
     NAME_SPECIAL = [b" ", b"#", b'"', b"\\", b"\xe9", b"\xff", b"\x80", b"'", b"$", b"=", b"-", b"+", b"e", b"x", b"0", b"1", b"_", b"z", b"~", b"\x7f", b"(", b")", b",", b":", b"?", b"*", b"[", b"]", b"{", b"}", b"@", b"!", b"%", b"^", b"`"]
     NUMLIKE = [b"1e3", b"0x10", b"12", b"inf", b"nan", b"-5", b"+3", b"1e", b"0x", b"017", b"1.5", b"INF", b"NaN", b"infinity", b"0", b"1e+3",
@@ -186,6 +191,11 @@ def gen_case(g, cid, hard, rich):
         ns = affix(1) if r.random() < 0.5 else None
         px = affix(1) if r.random() < 0.6 else None
         sx = affix(1) if r.random() < 0.6 else None
+        if g.facts.get("INC_BLANK") and ns and px:
+            if r.random() < 0.5:
+                ns = None
+            else:
+                px = None
         fn = r.choice([b"sub.format", b"sub frag", b"s#1", b'q"uote', b"back\\slash", b"\xe9t\xe9"])
         c.cmds.append("INC 0 %s %s %s %s" % (hx(fn), hx(ns), hx(px), hx(sx)))
         c.inc = (ns, px, sx)
@@ -228,7 +238,10 @@ def gen_case(g, cid, hard, rich):
     def code():
         k = r.random()
         if frag_box[0] == 1:
-            return aff(g.name(set(), ctrl=True))
+            b = g.name(set(), ctrl=True)
+            if not g.facts.get("REPRZ") and b in (b"r", b"i", b"a", b"m"):
+                b = b + b"x"
+            return aff(b)
         if k < 0.5 and used:
             return r.choice(sorted(used))
         return g.name(set(), ctrl=True)
@@ -425,7 +438,10 @@ def gen_case(g, cid, hard, rich):
             c.cmds.append("FRAGATTR 1 %x %d %d -1" % (r.choice([0, 4, 8]), r.choice([-1, 0, 1, 2, 3]), r.choice([0, 0, 7, 2 ** 40])))
     # standards version requested before the flush (ignored by the library if not available)
     if r.random() < 0.5:
-        c.cmds.append("STD %d" % r.choice([6, 7, 8, 9, 10, 9, 8]))
+        v = r.choice([6, 7, 8, 9, 10, 9, 8])
+        if c.inc and c.inc[0] and not g.facts.get("NS_RULE"):
+            v = 10
+        c.cmds.append("STD %d" % v)
     return c
 
 
@@ -663,6 +679,9 @@ def main():
     trans_problems = [l for l in tout.splitlines() if l.startswith("PROBLEM")]
     m = re.search(r"FLUSH_DIGITS (\d+)", tout)
     P = int(m.group(1)) if m else 15
+    facts = {}
+    for k_, v_ in re.findall(r"\b(INC_BLANK|NS_RULE|REPRZ|TOK_UNDERFLOW|TOK_ZERO|HIDDEN_SKIPS) (\d)", tout):
+        facts[k_] = (v_ == "1")
     # 2. proofs
     proved = chk.prove("Properties_C07", extra_targets=["Gen/Formats.vo"])
     chk.cov["trusted_base"] += [
@@ -687,7 +706,7 @@ def main():
         chk.violation("model-build", "Coq model does not compile: " + log[-1500:], {"kind": "model-build", "log": log[-4000:]}, found=False)
         return chk.finish()
 
-    g = Gen(rng, P)
+    g = Gen(rng, P, facts)
     ncase = 260 if not chk.thorough else 4000
     cases = []
     for i in range(ncase):
@@ -712,6 +731,17 @@ def main():
     c.entries = [("SARRAY %s 2 %s %s" % (hx(b"s"), hx(b"a"), hx(b"b")), 0, None)]
     c.pure = False
     wit.append(c)
+    for key, cmds in (
+            (KINC, ["OPEN 0", "INC 0 %s %s %s -" % (hx(b"sub"), hx(b"ns"), hx(b"p")), "ADD CONST 1 - %s 008 3 0" % hx(b"ns.pc")]),
+            (KNSV, ["OPEN 0", "INC 0 %s %s - -" % (hx(b"sub"), hx(b"ns")), "STD 9"]),
+            (KREPRZ, ["OPEN 0", "INC 0 %s - %s -" % (hx(b"sub"), hx(b"p")), "ADD PHASE 1 - %s %s 1" % (hx(b"px"), hx(b"pr"))]),
+            (KINH, ["OPEN 0", "INC 0 %s - - -" % hx(b"sub"), "FRAGATTR 0 4 -1 0 -1"])):
+        c = Case("w%d" % len(wit))
+        c.pretty = False
+        c.cmds += cmds
+        c.pure = False
+        c.wkey = key
+        wit.append(c)
     allc = cases + wit
     sc = vlib.scratch("C07-")
     inp = "".join(c.text() for c in allc).encode()
@@ -815,12 +845,16 @@ def main():
     kinds_seen = {}
     for c in allc:
         r_ = res[c.cid]
+        forced = getattr(c, "wkey", None) if getattr(c, "wkey", None) in (KINC, KNSV, KREPRZ, KINH) else None
+
+        def viol(key, desc, rep, found=True, forced=forced):
+            return chk.violation(forced if (forced and found) else key, desc, rep, found=found)
         replay = {"kind": "case", "commands": c.cmds + ["FLUSH", "END"],
                   "how": "feed the commands to harness/C07/rt.c <scratch-dir> (built by vlib.build_harness); compare SNAP A with SNAP B/C"}
         fl = [o for o in r_["ops"]]
         if not hasattr(c, "A"):
             # metaflush itself failed or nothing was written
-            chk.violation("metaflush/failed", "gd_metaflush failed for a database built by successful operations (case %s): ops=%s" % (c.cid, fl[-3:]), replay)
+            viol("metaflush/failed", "gd_metaflush failed for a database built by successful operations (case %s): ops=%s" % (c.cid, fl[-3:]), replay)
             continue
         A = r_["snap"]["A"]
         for tag in ("B", "C"):
@@ -834,13 +868,13 @@ def main():
                 subn = [b for b in quoted if 0 < (b & 0x7fffffffffffffff) < (1 << 52)]
                 if "literal" in S["errstr"] and quoted:
                     key = KSUB if subn else K15
-                    chk.violation(key, "after gd_metaflush the dirfile no longer opens (%s): %s; the database holds the double %016x" % (
+                    viol(key, "after gd_metaflush the dirfile no longer opens (%s): %s; the database holds the double %016x" % (
                         "plain" if tag == "B" else "GD_PEDANTIC", S["errstr"][:160], (subn or quoted)[0]), dict(replay, reopen=tag, error=S["errstr"]))
                 elif "indecipherable" in S["errstr"] and c.std < 10 and hidden_late_type(A["lines"]):
-                    chk.violation(KHID, "gd_dirfile_standards accepted Standards Version %d for a database with the hidden %s field; the fragment written for that version no longer opens: %s" % (
+                    viol(KHID, "gd_dirfile_standards accepted Standards Version %d for a database with the hidden %s field; the fragment written for that version no longer opens: %s" % (
                         c.std, hidden_late_type(A["lines"]), S["errstr"][:120]), dict(replay, reopen=tag, error=S["errstr"]))
                 else:
-                    chk.violation("reopen/%s/error" % ("plain" if tag == "B" else "pedantic"),
+                    viol("reopen/%s/error" % ("plain" if tag == "B" else "pedantic"),
                                   "after gd_metaflush the dirfile no longer opens (%s, Standards Version %d): %s" % (
                                       "plain" if tag == "B" else "GD_PEDANTIC", c.std, S["errstr"][:200]), dict(replay, reopen=tag, error=S["errstr"]))
                 continue
@@ -850,7 +884,7 @@ def main():
             def norm(l):
                 return l
             if len(la) != len(lb):
-                chk.violation("reopen/entry-count", "number of snapshot lines differs after reopen (%s): %d vs %d (case %s)" % (tag, len(la), len(lb), c.cid),
+                viol("reopen/entry-count", "number of snapshot lines differs after reopen (%s): %d vs %d (case %s)" % (tag, len(la), len(lb), c.cid),
                               dict(replay, before=la, after=lb))
                 continue
             for x, y in zip(la, lb):
@@ -863,16 +897,16 @@ def main():
                         continue
                     key = classify_diff(normalise(cx, idx=True), normalise(cy, idx=True), stable, gtext)
                     if key:
-                        chk.violation(key, "numeric parameter changed by metaflush+reopen: %s -> %s" % (cx[:300], cy[:300]),
+                        viol(key, "numeric parameter changed by metaflush+reopen: %s -> %s" % (cx[:300], cy[:300]),
                                       dict(replay, before=cx, after=cy, reopen=tag))
                         continue
                     kind = cx.split()[0]
-                    chk.violation("reopen/%s/changed" % kind, "entry differs after gd_metaflush + gd_open%s (Standards Version %d): before %s | after %s" % (
+                    viol("reopen/%s/changed" % kind, "entry differs after gd_metaflush + gd_open%s (Standards Version %d): before %s | after %s" % (
                         "(GD_PEDANTIC)" if tag == "C" else "", c.std, cx[:400], cy[:400]), dict(replay, before=cx, after=cy, reopen=tag))
                 elif " ALIAS " in x and x.rsplit("=", 1)[0] == y.rsplit("=", 1)[0] and strip_z(x.rsplit("=", 1)[1]) == strip_z(y.rsplit("=", 1)[1]):
                     continue
                 else:
-                    chk.violation("reopen/line-changed", "snapshot line differs after reopen (%s): %s | %s" % (tag, x[:300], y[:300]),
+                    viol("reopen/line-changed", "snapshot line differs after reopen (%s): %s | %s" % (tag, x[:300], y[:300]),
                                   dict(replay, before=x, after=y, reopen=tag))
         # (d) the API stored what was put in (harness sanity) and (b)/(c) correspondence
         if c.std < 5:
@@ -882,7 +916,7 @@ def main():
         for ce, frag, parent in c.entries:
             nm = ce.split()[1]
             if nm in c.A and normalise(c.A[nm], idx=True) != normalise(ce, idx=True) and parent is None:
-                chk.violation("harness/api-store", "gd_entry right after gd_add differs from what was added: %s vs %s" % (ce[:300], c.A[nm][:300]),
+                viol("harness/api-store", "gd_entry right after gd_add differs from what was added: %s vs %s" % (ce[:300], c.A[nm][:300]),
                               dict(replay, added=ce, got=c.A[nm]), found=False)
         for nm, ce in c.M.items():
             pr = pres.get((c.cid, nm))
@@ -894,7 +928,7 @@ def main():
             n_text += 1
             if mtext is None or not mtext.endswith(b"\n") or mtext[:-1] not in bodyset:
                 near = [l for l in body if l.startswith((mtext or b"")[:max(3, len(unhx(nm) or b""))])][:1]
-                chk.violation("model/print/%s" % ce.split()[0],
+                viol("model/print/%s" % ce.split()[0],
                               "correspondence broken (writer): model print_entry gives %r, the fragment written by the library has %r (entry %s, Standards Version %d)" % (
                                   (mtext or b"?")[:200], (near[0] if near else b"<no such line>")[:200], ce[:200], c.std),
                               dict(replay, correspondence="print_entry vs _GD_FieldSpec", model=(mtext or b"").decode("latin1"), entry=ce), found=False)
@@ -909,7 +943,7 @@ def main():
                     want.append(unhx(pr.split(" ", 1)[0])[:-1])
             got = [l for l in body if l and not l.startswith(b"/")]
             if want != got:
-                chk.violation("model/print/fragment", "correspondence broken (writer): the field lines of the fragment are not the model lines in entry order (case %s): %r vs %r" % (
+                viol("model/print/fragment", "correspondence broken (writer): the field lines of the fragment are not the model lines in entry order (case %s): %r vs %r" % (
                     c.cid, got[:3], want[:3]), dict(replay, correspondence="fragment body", got=[x.decode("latin1") for x in got], want=[x.decode("latin1") for x in want]), found=False)
         B = r_["snap"].get("B")
         if B and not B["err"]:
@@ -925,18 +959,18 @@ def main():
                     continue
                 n_parse += 1
                 if lr == "NONE" or lr.startswith("FAIL"):
-                    chk.violation("model/parse/none", "correspondence broken (reader): the library reopened the fragment but the model parser rejects the line %r (Standards Version %d)" % (ln[:200], c.std),
+                    viol("model/parse/none", "correspondence broken (reader): the library reopened the fragment but the model parser rejects the line %r (Standards Version %d)" % (ln[:200], c.std),
                                   dict(replay, correspondence="parse_line vs _GD_ParseFieldSpec", line=ln.decode("latin1")), found=False)
                     continue
                 nm = lr.split()[1]
                 if nm not in Bc:
-                    chk.violation("model/parse/name", "correspondence broken (reader): model parses line %r as field %s, the library has no such field" % (ln[:200], nm),
+                    viol("model/parse/name", "correspondence broken (reader): model parses line %r as field %s, the library has no such field" % (ln[:200], nm),
                                   dict(replay, correspondence="parse_line", line=ln.decode("latin1"), model=lr), found=False)
                     continue
                 if " meta=1" in Bc[nm][1]:
                     continue
                 if normalise(Bc[nm][0], idx=True) != normalise(lr, idx=True):
-                    chk.violation("model/parse/%s" % lr.split()[0], "correspondence broken (reader): line %r: model parse %s, library %s" % (ln[:200], lr[:300], Bc[nm][0][:300]),
+                    viol("model/parse/%s" % lr.split()[0], "correspondence broken (reader): line %r: model parse %s, library %s" % (ln[:200], lr[:300], Bc[nm][0][:300]),
                                   dict(replay, correspondence="parse_line vs _GD_Parse*", line=ln.decode("latin1"), model=lr, impl=Bc[nm][0]), found=False)
     # witnesses of listed findings
     for c in wit:
